@@ -1580,10 +1580,16 @@ class TrajectoryStore:
             # If this is a merged store, find the right file and index into the
             # right group in that file.
             if nc_files.size_index is not None:
-                file_index = bisect.bisect_left(nc_files.size_index, index + 1)
-                if file_index >= len(nc_files.size_index):
+                # Use the live trajectory dimension lengths: the counts
+                # recorded at open time go stale as soon as a trajectory is
+                # added in APPEND mode.
+                size_index = list(
+                    itertools.accumulate(len(td) for td in nc_files.traj_dim)
+                )
+                file_index = bisect.bisect_left(size_index, index + 1)
+                if file_index >= len(size_index):
                     return
-                group_index = index - nc_files.size_index[file_index]
+                group_index = index - size_index[file_index]
             group = nc_files.groups[fs_name][file_index]
 
             # Read data from NetCDF variables.
